@@ -212,20 +212,20 @@ def bneMulti (ln exp : Q → Q) (fromLogits : Bool) (t n : Nat) (xs ts ws : List
 
 /-! ### the "never updated" guard of the class forms
 
-`WeightedCalibration.compute()` begins with `if torch.any(self.weighted_target_sum == 0.0): return torch.empty(0)`,
-`BinaryNormalizedEntropy.compute()` with `if torch.any(self.num_examples == 0.0): return torch.empty(0)`:
-ONE test over all tasks, one empty tensor for all tasks. -/
+`WeightedCalibration.compute()` begins with `if torch.all(self.weighted_target_sum == 0.0): return torch.empty(0)`,
+`BinaryNormalizedEntropy.compute()` with `if torch.all(self.num_examples == 0.0): return torch.empty(0)`
+("no update yet"); otherwise every task gets its own division (`x/0` of a degenerate task stays in that task). -/
 
-/-- the guard: an empty result for every task as soon as one task's denominator is 0. -/
-def emptyIfAnyZero (den : List Q) (vals : List XQ) : List XQ := if den.any (· == 0) then [] else vals
+/-- the guard: an empty result only when EVERY task's denominator is 0. -/
+def emptyIfAllZero (den : List Q) (vals : List XQ) : List XQ := if den.all (· == 0) then [] else vals
 
 /-- `WeightedCalibration.compute()` on the per-task `(weighted_input_sum, weighted_target_sum)`. -/
 def wcClassCompute (sums : List (Q × Q)) : List XQ :=
-  emptyIfAnyZero (sums.map (·.2)) (sums.map fun s => xdiv s.1 s.2)
+  emptyIfAllZero (sums.map (·.2)) (sums.map fun s => xdiv s.1 s.2)
 
 /-- `BinaryNormalizedEntropy.compute()` on the per-task `(total_entropy, num_positive, num_examples)`. -/
 def bneClassCompute (ln : Q → Q) (stats : List (Q × Q × Q)) : List XQ :=
-  emptyIfAnyZero (stats.map (·.2.2)) (stats.map fun s => Agg.bneCompute ln s.1 s.2.1 s.2.2)
+  emptyIfAllZero (stats.map (·.2.2)) (stats.map fun s => Agg.bneCompute ln s.1 s.2.1 s.2.2)
 
 /-! ### `sum(dim=0)` per output: mean squared error, R² -/
 
